@@ -1,7 +1,7 @@
 use crate::index_struct;
 use crate::strand::CanonicalStrand;
 use crate::{Answer, AnswerMode};
-use rustc_hash::FxHashMap;
+use rustc_hash::{FxHashMap, FxHashSet};
 use std::collections::hash_map::Entry;
 use std::collections::VecDeque;
 use std::mem;
@@ -40,6 +40,10 @@ pub(crate) struct Table<I: Interner> {
     /// to do so though it can result in more answers than we need.
     answers_hash: FxHashMap<Canonical<AnswerSubst<I>>, bool>,
 
+    /// Indices of the answers with delayed subgoals for which a
+    /// refinement strand has already been created.
+    refined_answers: FxHashSet<usize>,
+
     /// Stores the active strands that we can "pull on" to find more
     /// answers.
     strands: VecDeque<CanonicalStrand<I>>,
@@ -64,6 +68,7 @@ impl<I: Interner> Table<I> {
             answers: Vec::new(),
             floundered: false,
             answers_hash: FxHashMap::default(),
+            refined_answers: FxHashSet::default(),
             strands: VecDeque::new(),
             answer_mode: AnswerMode::Complete,
         }
@@ -106,6 +111,7 @@ impl<I: Interner> Table<I> {
         self.floundered = true;
         self.strands = Default::default();
         self.answers = Default::default();
+        self.refined_answers = Default::default();
     }
 
     /// Returns true if the table is floundered.
@@ -161,6 +167,12 @@ impl<I: Interner> Table<I> {
 
     pub(super) fn answer(&self, index: AnswerIndex) -> Option<&Answer<I>> {
         self.answers.get(index.value)
+    }
+
+    /// Records that a refinement strand is being created for the answer
+    /// `index`. Returns false if that has happened before.
+    pub(super) fn mark_refined(&mut self, index: AnswerIndex) -> bool {
+        self.refined_answers.insert(index.value)
     }
 
     pub(super) fn next_answer_index(&self) -> AnswerIndex {
